@@ -440,7 +440,7 @@ def getunit(v, unit='rad'):
     if unit == "rad":
         return v
     elif unit == "deg":
-        if isinstance(v, np.ndarray) or np.isscalar(v):
+        if isinstance(v, np.ndarray) or isscalar(v):
             return v * math.pi / 180
         else:
             return [x * math.pi / 180 for x in v]
